@@ -216,7 +216,7 @@ def norm_tree(t):
 
 # ------------------------------------------------------------------ bind.parse on respelled documents
 def gen_respelled(rng, tier):
-    for u, ctx, desc, tree, kind in documents(rng, tier, n_cases(tier, 110, 1500), 3, mutate=True):
+    for u, ctx, desc, tree, kind in documents(rng, tier, n_cases(tier, 110, 800), 3, mutate=True):
         if kind not in ("valid", "ws", "corrupt_text", "corrupt_attr", "unknown_attr", "drop_attr", "bad_xsi_nil", "reorder", "delete", "duplicate"):
             continue
         if kind != "valid" and rng.random() < 0.5:
@@ -343,7 +343,19 @@ def gen_tails(rng, tier):
         toks.append(["e", q])
         return toks
 
-    for _ in range(n_cases(tier, 400, 6000)):
+    if tier == "thorough":
+        # bounded-exhaustive: every way of cutting these token streams into read chunks (at token boundaries)
+        fixed = [
+            [["s", "Root"], ["s", "t"], ["c", "x"], ["e", "t"], ["c", "TAIL"], ["s", "t"], ["e", "t"], ["c", "end"], ["e", "Root"]],
+            [["s", "Root"], ["c", "a"], ["c", "b"], ["s", "t"], ["s", "u"], ["e", "u"], ["c", "p"], ["c", "q"], ["e", "t"], ["c", "z"], ["e", "Root"]],
+            [["s", "Root"], ["s", "t"], ["e", "t"], ["s", "t"], ["e", "t"], ["c", " "], ["s", "t"], ["c", "1"], ["e", "t"], ["e", "Root"]],
+        ]
+        for toks in fixed:
+            m = len(toks) - 1
+            for mask in range(1 << m):
+                pos = [0] + [i + 1 for i in range(m) if mask >> i & 1] + [len(toks)]
+                yield {"chunks": [toks[i:j] for i, j in zip(pos, pos[1:]) if i < j]}
+    for _ in range(n_cases(tier, 400, 5000)):
         toks = [["s", "Root"]]
         for _ in range(rng.randint(1, 4)):
             toks += element(1) if rng.random() < 0.7 else [["c", rng.choice(texts)]]
@@ -404,7 +416,7 @@ def classify_tails(a, o):
 # ------------------------------------------------------------------ the tokeniser contract: events of the infoset
 def gen_contract(rng, tier):
     """respelled documents with the tree of their declarations, read in random pieces"""
-    for u, ctx, desc, tree, kind in documents(rng, tier, n_cases(tier, 60, 900), 3, mutate=False):
+    for u, ctx, desc, tree, kind in documents(rng, tier, n_cases(tier, 60, 450), 3, mutate=False):
         try:
             orig = G.tree_xml(tree)
             tree = R.infoset(orig)
@@ -540,7 +552,7 @@ def gen_xinclude(rng, tier):
     import c08_docs as D
 
     wk = D.well_known()
-    for _ in range(n_cases(tier, 250, 4000)):
+    for _ in range(n_cases(tier, 250, 2500)):
         files = {}
         counter = [0]
 
@@ -970,9 +982,9 @@ ASSUMPTIONS = [
     "class universes keep every class under one parent namespace (the metadata cache is the subject of C14)",
     "union-typed class fields are outside the modelled fragment (model answers `unsupported`, not compared)",
 ]
-LEVEL_TEXT = "proof (model: attribute order, ignorable white space, padded values, prefix maps) + correspondence (tokeniser-level respellings)"
+LEVEL_TEXT = "proof (model: attribute order, ignorable white space, padded values, prefix maps for every universe, read chunks, XInclude merging; bytes given the tokeniser contract) + correspondence (the tokeniser contract on generated respellings)"
 LEVEL_NOTE = (
     "Theorems in Props/C09.lean are about the Lean model of NodeParser on the infoset Tree; the respellings that the tokenisers resolve "
     "(comments, PIs, CDATA, character references, encodings, XInclude) are invisible to that interface by construction and are checked by "
-    "sampling only, except for the read chunks of the tokeniser (Backends/Chunks.lean, section 6). Two listed findings are excluded regions."
+    "sampling: section 7 states what is assumed of them as a contract (Backends/Infoset.lean) and lifts the theorems to bytes, the contract is checked by c08.pump / c08.inscope on respelled documents. Read chunks (section 6) and XInclude merging (section 8) are modelled. Three listed findings are excluded regions."
 )
